@@ -351,7 +351,7 @@ pub fn run(rep: &mut Report) {
     rep.sample(json!({"part":"server","req":"SET_MEM_TABLE[2]","shape":"SizePlus1","nfds":33,"teardown":1,"expect":"all 33 descriptors closed, fd table unchanged"}));
     rep.sample(json!({"part":"server","req":"SET_VRING_KICK[fd]","shape":"Valid","nfds":1,"handler_keeps_files":true,"expect":"exactly one extra descriptor: the one the application holds"}));
     rep.sample(json!({"part":"frontend_reply","op":"GetFeatures","nfds":3,"expect":"reply rejected, 3 descriptors closed"}));
-    rep.rule = "backend server: every request type x {valid, size+1, truncated body, REPLY flag, invalid body, unknown code} x descriptor count in {0,1,2,(3,31,)32,33,40} attached to header or body x negotiation state x optional second descriptor-carrying message x teardown before / after the first / after the second message x handler keeps or drops its files; frontend: every operation's reply with 0..=33 unexpected descriptors, and a full successful session with lent descriptors; frontend request server: 5 kinds x 0..=40 descriptors; running daemon: all sequences of length <= 2 and the length-3 sequences starting with a descriptor hand-over (all at thorough) over 18 descriptor-passing / releasing operations. Every passed descriptor is a distinct file. Oracle: after dropping the endpoints, for every passed file #open descriptors = 1 (original) + copies the application holds, no identity delivered twice, and the process's descriptor numbers = before + held. Non-trivial = scenarios whose accounting was verified".into();
+    rep.rule = "backend server: every request type x {valid, size+1, truncated body, REPLY flag, invalid body, unknown code} x descriptor count in {0,1,2,(3,31,)32,33,40} attached to header or body x negotiation state x optional second descriptor-carrying message x teardown before / after the first / after the second message x handler keeps or drops its files; frontend: every operation's reply with 0..=33 unexpected descriptors, and a full successful session with lent descriptors; frontend request server: 5 kinds x 0..=40 descriptors; running daemon: all sequences of length <= 2 and the length-3 sequences starting with a descriptor hand-over (thorough: all of length 3 and those of length 4 starting with a hand-over) over 18 descriptor-passing / releasing operations. Every passed descriptor is a distinct file. Oracle: after dropping the endpoints, for every passed file #open descriptors = 1 (original) + copies the application holds, no identity delivered twice, and the process's descriptor numbers = before + held. Non-trivial = scenarios whose accounting was verified".into();
     rep.assumptions.push("serial execution inside the process (no concurrent open); identity via fstat (st_dev, st_ino)".into());
 }
 
@@ -636,6 +636,21 @@ mod daemon_part {
                     // length 3: all at thorough; at quick those that start by handing a descriptor over
                     if thorough || !matches!(OPS[a], Op::RemReg | Op::Kick0None | Op::Call0None | Op::GetBase0 | Op::ResetDevice | Op::Reconnect) {
                         seqs.push(vec![a, b, c]);
+                    }
+                }
+            }
+        }
+        if thorough {
+            // length 4, starting with a descriptor hand-over
+            for a in 0..n {
+                if matches!(OPS[a], Op::RemReg | Op::Kick0None | Op::Call0None | Op::GetBase0 | Op::ResetDevice | Op::Reconnect) {
+                    continue;
+                }
+                for b in 0..n {
+                    for c in 0..n {
+                        for d in 0..n {
+                            seqs.push(vec![a, b, c, d]);
+                        }
                     }
                 }
             }
